@@ -132,6 +132,64 @@ fn recv_all(p: &Pair, expect_bytes: usize) -> Vec<(Vec<u8>, RecvMeta)> {
     got
 }
 
+/// C19 "the source ... addresses are conveyed", explicit source address: a sender bound to the wildcard address names
+/// a source other than the one the kernel would pick (127.0.0.2 / 127.0.0.3 on the loopback network) - plain IPv4 on an
+/// IPv4 socket, and both the IPv4 and the IPv4-mapped spelling on a dual-stack socket talking to an IPv4-mapped peer
+/// (the spelling `RecvMeta::dst_ip` reports there, which quinn feeds back as `src_ip`). The receiver must see it.
+fn explicit_source(o: &mut Out) -> u64 {
+    let mut n = 0u64;
+    for dual in [false, true] {
+        let tx = if dual {
+            bind(0)
+        } else {
+            UdpSocket::bind(SocketAddr::new(Ipv4Addr::UNSPECIFIED.into(), 0)).ok()
+        };
+        let (Some(tx), Some(rx)) = (tx, bind(4)) else {
+            o.fails.push(format!("key=udp-loopback-unavailable explicit-source dual={dual}"));
+            continue;
+        };
+        let _ = rx.set_read_timeout(Some(Duration::from_millis(200)));
+        let (Ok(rx_state), Ok(tx_state)) = (UdpSocketState::new(UdpSockRef::from(&rx)), UdpSocketState::new(UdpSockRef::from(&tx))) else { continue };
+        let rx_port = rx.local_addr().unwrap().port();
+        let tx_port = tx.local_addr().unwrap().port();
+        let dst_ip: IpAddr = if dual { IpAddr::V6(Ipv4Addr::LOCALHOST.to_ipv6_mapped()) } else { Ipv4Addr::LOCALHOST.into() };
+        let p = Pair { rx_addr: SocketAddr::new(dst_ip, rx_port), tx_addr: SocketAddr::new(Ipv4Addr::LOCALHOST.into(), tx_port), tx, rx, tx_state, rx_state };
+        for last in [2u8, 3] {
+            let v4 = Ipv4Addr::new(127, 0, 0, last);
+            let spellings: Vec<IpAddr> = if dual { vec![IpAddr::V6(v4.to_ipv6_mapped()), IpAddr::V4(v4)] } else { vec![IpAddr::V4(v4)] };
+            for src in spellings {
+                for ecn in [None, Some(EcnCodepoint::Ect0), Some(EcnCodepoint::Ce)] {
+                    let contents = content(300 + last as usize, 9);
+                    let t = Transmit { destination: p.rx_addr, ecn, contents: &contents, segment_size: None, src_ip: Some(src) };
+                    if let Err(e) = p.tx_state.send(UdpSockRef::from(&p.tx), &t) {
+                        // an explicit source the kernel refuses is reported by send, never silently replaced
+                        *o.hist.entry(format!("explicit-source send refused by the kernel ({} sender, source {src}): {}", if dual { "dual-stack" } else { "ipv4" }, e.kind())).or_default() += 1;
+                        continue;
+                    }
+                    n += 1;
+                    let got = recv_all(&p, contents.len());
+                    match got.first() {
+                        None => o.fails.push(format!("key=udp-explicit-source-datagram-lost dual={dual} src={src} ecn={ecn:?}")),
+                        Some((d, m)) => {
+                            if d.as_slice() != contents.as_slice() {
+                                o.fails.push(format!("key=udp-payload-altered explicit-source dual={dual} src={src}"));
+                            }
+                            if m.addr.ip().to_canonical() != IpAddr::V4(v4) {
+                                o.fails.push(format!("key=udp-explicit-source-not-conveyed transmit names source {src} (dual-stack sender: {dual}, destination {}), the receiver sees {} ecn={ecn:?}", p.rx_addr, m.addr));
+                            }
+                            if m.ecn != ecn {
+                                o.fails.push(format!("key=udp-ecn-not-conveyed explicit-source dual={dual} src={src} sent {ecn:?} got {:?}", m.ecn));
+                            }
+                        }
+                    }
+                }
+            }
+        }
+        *o.hist.entry(format!("explicit-source {} sender", if dual { "dual-stack" } else { "ipv4" })).or_default() += 1;
+    }
+    n
+}
+
 /// Send one transmit through `UdpSocketState::send`, receive what arrives, record the `udp wire` line and apply
 /// the C19 oracles (derived from the property text): EACH SEGMENT of the transmit arrives as ONE datagram with
 /// identical bytes (boundaries and payload), ECN codepoint, source and destination addresses conveyed.
@@ -405,6 +463,8 @@ fn main() {
     for kind in [Kind::V4, Kind::V6, Kind::DualTx, Kind::DualRx, Kind::DualBoth] {
         sent_cases += shapes(&mut o, &mut rng, kind, seed);
     }
+    // ---- an explicit source address other than the kernel's default, on IPv4 and dual-stack senders
+    sent_cases += explicit_source(&mut o);
     // ---- a kernel that refuses segmentation offload for this socket (EINVAL on every UDP_SEGMENT send)
     for v6 in [false, true] {
         refused(&mut o, v6, seed);
